@@ -33,15 +33,6 @@ EAGER_OVER_LAZY = 'C17:eager-load-ignores-lazy-entry'
 # statement falls into one of these classes is reported under the class key; anything else is
 # a new violation.
 PENDING_FINDINGS = {
-    'C17:latest-accepts-misversioned-file':
-        "g_irepository_require(ns, NULL) accepts an elected file whose header version differs from its file name "
-        "(require_internal compares the version only when one was requested): d/Foo-2.0.typelib containing version "
-        "1.9 is loaded as Foo 1.9",
-    'C17:load-typelib-skips-version-conflict':
-        "g_irepository_load_typelib never reports NAMESPACE_VERSION_CONFLICT (the check is nested under the branch "
-        "where get_registered_status succeeded): loading Bar 2.0 from memory while Bar 1.0 is loaded replaces the "
-        "typelib under the old key (version 2.0, path of Bar-1.0.typelib), duplicates it in the lazy table, or "
-        "aborts in register_internal",
     'C17:eager-load-ignores-lazy-entry':
         "an eager g_irepository_require / load_typelib of a LAZILY loaded namespace does not look at the lazy entry "
         "(get_registered_status returns NULL without a version check when the LAZY flag is absent): the typelib is "
@@ -503,11 +494,7 @@ class Spec(object):
                 raise Outside('tie between files of different kind inside one directory')
         d, fn, fver = chosen[0]
         kind = self.file_kind(ns, chosen[0])
-        if kind == 'mismatch-ns':
-            return ('err', 'Mismatch')
-        if kind == 'mismatch-ver':
-            if ver is None:
-                self.set_taint('C17:latest-accepts-misversioned-file')
+        if kind in ('mismatch-ns', 'mismatch-ver'):
             return ('err', 'Mismatch')
         return ('pick', chosen)
 
@@ -709,7 +696,8 @@ def judge_history(tree, ops, real, done, rc):
                         elif r.get('okns') != ns:
                             return 'fails', 'call %d %r: already loaded at this version, must succeed; got %r' % (i, o, r), sp, judged
                     else:
-                        sp.set_taint(EAGER_OVER_LAZY if transition else 'C17:load-typelib-skips-version-conflict')
+                        if transition:
+                            sp.set_taint(EAGER_OVER_LAZY)
                         if ERR_NAMES.get(r.get('err')) != 'VersionConflict':
                             return 'fails', 'call %d %r: %s is loaded at version %s, loading version %s must fail with a ' \
                                 'version conflict; got %r' % (i, o, ns, e['ver'], hdr['ver'], r), sp, judged
